@@ -70,33 +70,72 @@ def run(ctx, sess):
         ctx.ob('C16.1', sdf != 0 and eps % (spd // sdf) == 0, g['name'], 'entries_per_summary % entries_per_data == 0', where, '%d %% %d' % (eps, spd // sdf if sdf else 0))
         ctx.ob('C16.1', eps % sdf2 == 0, g['name'], 'entries_per_summary % summary_decimate_factor == 0', where, '%d %% %d' % (eps, sdf2))
         ctx.ob('C16.1', all(v[f] >= mins[f] for f in FIELDS), g['name'], 'every value >= its minimum', where, str({f: (v[f], mins[f]) for f in FIELDS}))
-    # ---- C16.2
+    # ---- C16.2: which table the defaults function selects, traced for every accepted data type (and for variants that
+    # differ only in bits the validator ignores, such as the fixed-point q field)
+    from ..fd import trace_calls
     d = P.fn('signal_def_defaults')
     ctx.saw(d)
-    arms = set()
-    sw = None
-    for b in d.blocks.values():
-        if b.term and b.term.get('kind') == 'SwitchStmt':
-            sw = b
-            for s, label in b.succs:
-                if isinstance(label, tuple) and label[0] == 'case':
-                    arms.update(label[1])
-    if sw is None:
-        raise AnalysisBroken('defaults switch not found')
-    for w in sorted(widths):
-        ctx.ob('C16.2', w in arms, d.name, 'defaults arm for width %d' % w, d.where(),
-               'arm present' if w in arms else 'width %d is accepted by the validator but has no defaults: zero fields keep 0 and are only lifted to the minimums' % w)
-        # the arm selects the table of the same width
-    for s, label in sw.succs:
-        if isinstance(label, tuple) and label[0] == 'case':
-            for ev in s.events:
-                if ev.k == 'store':
-                    rhs = ev.store_parts()[1]
+    dparam = d.params[0]['name']
+    # bits of data_type the validator does not look at
+    free = 0
+    v_ = P.fn('jls_core_signal_def_validate')
+    for b_ in v_.blocks.values():
+        if b_.term and b_.term.get('kind') == 'SwitchStmt' and b_.cond is not None:
+            c_ = strip_casts(b_.cond)
+            if c_.get('op') == 'bin' and c_['o'] == '&' and any(nd.get('op') == 'member' and nd.get('field') == 'data_type' for nd in walk(c_)):
+                m_ = const_of(c_['k'][1]) if const_of(c_['k'][1]) is not None else const_of(c_['k'][0])
+                if m_ is not None:
+                    free = (~m_) & 0xffffffff
+    variants = [0]
+    if free:
+        low = free & (-free)
+        variants += [low, low * 8, (low * 255) & free]
+    selected = {}        # width -> set of table names (or None)
+    per_width = {}
+    undecided = []
+    psz = P.fn('jls_datatype_parse_size')
+    from .defnorm import accepted_data_types
+    for dt in accepted_data_types(P):
+        for var in variants:
+            dtv = dt | var
+            w = fd.call(psz, [dtv])
+            env = {'%s.data_type' % dparam: dtv, dparam: 1}
+            for f_ in FIELDS + ('annotation_decimate_factor', 'utc_decimate_factor'):
+                env['%s.%s' % (dparam, f_)] = 0
+            used = set()
+
+            def on_store(ev, env_, sym_, used=used):
+                lhs, rhs, o = ev.store_parts()
+                l0 = strip_casts(lhs)
+                if l0.get('op') == 'member' and l0.get('field') in FIELDS and rhs is not None:
                     for nd in walk(rhs):
-                        if nd.get('op') == 'ref' and nd.get('rk') == 'global':
-                            m = re.fullmatch(r'SIGNAL_(\d+)_DEFAULTS', nd['name'])
-                            if m:
-                                ctx.ob('C16.2', int(m.group(1)) in label[1], d.name, 'case %s selects the matching table' % list(label[1]), ev.where(), nd['name'])
+                        if nd.get('op') == 'ref' and nd.get('name') in sym_ and sym_[nd['name']][0] == 'addr':
+                            used.add(sym_[nd['name']][1])
+                        elif nd.get('op') == 'ref' and nd.get('rk') == 'global':
+                            used.add(nd['name'])
+            try:
+                trace_calls(P, d, env, assume_calls=None, on_store=on_store)
+            except Top:
+                undecided.append('0x%08x' % dtv)
+                continue
+            tabs = sorted(t_ for t_ in used if re.fullmatch(r'SIGNAL_(\d+)_DEFAULTS', t_))
+            per_width.setdefault(w, set()).add(tuple(tabs))
+            selected.setdefault(w, []).append((dtv, tabs))
+    if undecided:
+        raise AnalysisBroken('defaults selection not decidable for %s' % undecided[:3])
+    for w in sorted(widths):
+        sel = selected.get(w, [])
+        has = [x for x in sel if x[1]]
+        ok = bool(sel) and len(has) == len(sel)
+        ctx.ob('C16.2', ok, d.name, 'defaults arm for width %d' % w, d.where(),
+               'arm present' if ok else ('width %d is accepted by the validator but has no defaults: zero fields keep 0 and are only lifted to the minimums' % w if not has else
+                                        'data type %s of width %d gets no per-width defaults although other types of that width do (bits the validator ignores change the selection)' % (', '.join('0x%08x' % x[0] for x in sel if not x[1])[:60], w)))
+        for dtv, tabs in has:
+            good = tabs == ['SIGNAL_%d_DEFAULTS' % w]
+            if not good:
+                ctx.ob('C16.2', False, d.name, 'table selected for width %d' % w, d.where(), 'data type 0x%08x selects %s' % (dtv, tabs))
+        if has and all(tabs == ['SIGNAL_%d_DEFAULTS' % w] for _, tabs in has):
+            ctx.ob('C16.2', True, d.name, 'table selected for width %d' % w, d.where(), 'SIGNAL_%d_DEFAULTS for %d data type variants' % (w, len(has)))
     # common defaults on every path: stores to annotation_decimate_factor / utc_decimate_factor
     for fld in ('annotation_decimate_factor', 'utc_decimate_factor'):
         sts = [ev for ev in d.stores() if strip_casts(ev.store_parts()[0]).get('field') == fld]
